@@ -148,3 +148,44 @@ Definition grid_cover_jobs (g : grid) (maxDict : N) (sp : splitpoint) : list (N 
   flat_map (fun d => flat_map (fun k => if cover_check k d maxDict sp then [(d, k)] else []) (g_ks g)) (g_ds g).
 Definition grid_fastcover_jobs (g : grid) (maxDict f accel : N) (sp : splitpoint) : list (N * N) :=
   flat_map (fun d => flat_map (fun k => if fastcover_check k d maxDict f accel sp then [(d, k)] else []) (g_ks g)) (g_ds g).
+
+(* ------------------------------------------------------------------ entry of the two optimisers *)
+(* what ZDICT_optimizeTrainFromBuffer_cover / _fastCover do before the first candidate runs:
+   EntryErr = an error code is returned, EntryHang = the model's loops did not finish within the fuel,
+   EntryJobs = the resolved steps / split point / f / accel and the candidates that will be started, in order.
+   (repaired code: the d and k loops stop on wrap-around, and the fastCover optimiser validates f on entry -
+   findings F8, F10) *)
+Inductive entry :=
+| EntryErr
+| EntryHang
+| EntryJobs (steps : N) (sp : splitpoint) (f accel : N) (jobs : list (N * N)).
+
+Definition sp_dflt (num20 : N) : splitpoint := {| sp_num := Z.of_N num20; sp_sh := 20 |}.
+
+Definition opt_entry_cover (fuel : nat) (d k steps : N) (sp : splitpoint) (nb capacity : N) : entry :=
+  let sp' := if sp_pos sp then sp else sp_dflt t_COVER_DEFAULT_SPLITPOINT_num20 in
+  if negb (sp_ok sp') then EntryErr
+  else match opt_grid true fuel d k steps with
+       | None => EntryHang
+       | Some None => EntryErr
+       | Some (Some g) =>
+           if nb =? 0 then EntryErr
+           else if capacity <? t_ZDICT_DICTSIZE_MIN then EntryErr
+           else EntryJobs (g_steps g) sp' 0 0 (grid_cover_jobs g capacity sp')
+       end.
+
+Definition opt_entry_fast (fuel : nat) (d k steps : N) (sp : splitpoint) (f accel nb capacity : N) : entry :=
+  let sp' := if sp_pos sp then sp else sp_dflt t_FASTCOVER_DEFAULT_SPLITPOINT_num20 in
+  let f' := if f =? 0 then t_DEFAULT_F else f in
+  let accel' := if accel =? 0 then t_DEFAULT_ACCEL else accel in
+  if negb (sp_ok sp') then EntryErr
+  else if (accel' =? 0) || (t_FASTCOVER_MAX_ACCEL <? accel') then EntryErr
+  else if (f' =? 0) || (t_FASTCOVER_MAX_F <? f') then EntryErr
+  else match opt_grid true fuel d k steps with
+       | None => EntryHang
+       | Some None => EntryErr
+       | Some (Some g) =>
+           if nb =? 0 then EntryErr
+           else if capacity <? t_ZDICT_DICTSIZE_MIN then EntryErr
+           else EntryJobs (g_steps g) sp' f' accel' (grid_fastcover_jobs g capacity f' accel' sp')
+       end.
